@@ -43,9 +43,12 @@ def render(prog, sfx=""):
         elif op in ("if", "unless", "elsif"):
             lines.append("%s %s" % (op, cond_src(l["c"], sfx)))
         elif op == "stmt":
-            lines.append("z%s = 1" % sfx)
+            form = l.get("form", "plain")
+            lines.append("z%s = 1%s" % (sfx, {"plain": "", "if-modifier": " if true", "unless-modifier": " unless false"}[form]))
         else:
             lines.append(op)
+        if op == "stmt" and l.get("form", "plain") != "plain":
+            continue          # no probe between a modifier statement and the conditional right behind it
         for var in ("x", "y"):
             names = st["env"][var]
             if names:
@@ -201,8 +204,11 @@ def run(tier, work):
             continue
         v.count("batch_mismatches")
         d0 = deviation(prog, mm[0][3], open_keys)
-        if d0 and d0 in v.known:
-            v.known_hit(d0)                    # same named deviation already confirmed alone in this run
+        if d0 and v.seen(d0):
+            v.again(d0)                        # same named deviation already confirmed alone in this run
+            continue
+        if len(v.violations) >= 12:
+            v.count("mismatches_not_confirmed_after_12_violations")
             continue
         job, obs2, rr, lines = alone(work, cfg, prog)
         mm = [o for o in obs2 if o[1] != o[2]]
